@@ -51,11 +51,25 @@ def leaves_of(forest, pre=()):
     return out
 
 
+def gen_enum_tree(r, depth):
+    """Enum mode: every group of siblings uses the member names A, B, C (one Enum class per group), so the
+    same member name occurs on every level and in every branch"""
+    out = []
+    n = r.randint(2, 3)
+    for i in range(n):
+        kids = gen_enum_tree(r, depth + 1) if depth < 2 and r.random() < (0.6 if depth == 0 else 0.35) else []
+        out.append(['ABC'[i], kids])
+    if depth == 0 and not any(k for _, k in out):
+        out[-1][1] = gen_enum_tree(r, 1)
+    return out
+
+
 def gen(rng, malformed):
     r = rng
     sep = r.choice(['_', '_', '.', '/'])
-    cfg = dict(sep=sep, auto=r.random() < 0.7, over=(sep == '_' and r.random() < 0.25), enum=False)
-    forest = gen_tree(r, 0, set())
+    enum_mode = r.random() < 0.4
+    cfg = dict(sep=sep, auto=r.random() < 0.7, over=(sep == '_' and r.random() < 0.25), enum=enum_mode)
+    forest = gen_enum_tree(r, 0) if enum_mode else gen_tree(r, 0, set())
     paths = paths_of(forest)
     leaves = leaves_of(forest)
     names = []
@@ -76,12 +90,16 @@ def gen(rng, malformed):
                 for n in r.sample(names, min(len(names), r.randint(1, 3))):
                     pre += 1
                     x = r.random()
-                    if x < 0.6:
+                    if x < 0.45:
                         cls.append([n, ['pre', pre]])
+                    elif x < 0.6:
+                        cls.append([n, ['own', pre]])
                     elif x < 0.75:
                         cls.append([n, ['none']])
-                    else:
+                    elif x < 0.9:
                         inst.append([n, ['pre', pre]])
+                    else:
+                        inst.append([n, ['own', pre]])
             mids.append(mid)
             ops.append(['model', dict(id=mid, cls=cls, inst=inst), r.choice(leaves)])
         else:
@@ -103,7 +121,7 @@ def enc_tree(t):
 
 def enc_obj(o):
     def ev(v):
-        return [0, v[1]] if v[0] == 'pre' else [1]
+        return [0, v[1]] if v[0] == 'pre' else ([4, v[1]] if v[0] == 'own' else [1])
     return [o['id'], [[sx_str(n), ev(v)] for n, v in o['cls']], [[sx_str(n), ev(v)] for n, v in o['inst']]]
 
 
@@ -126,6 +144,34 @@ def to_states_arg(forest):
     return out
 
 
+class EnumTree(object):
+    """Enum mode: one Enum class per group of siblings, members named like the segments (the same member
+    names on every level); maps paths <-> members"""
+    def __init__(self, forest):
+        self.member = {}
+        self.path_of = {}
+
+        def group(nodes, prefix):
+            cls = enum.Enum('E' + ''.join('_' + x for x in prefix), [n for n, _ in nodes])
+            for n, kids in nodes:
+                p = prefix + (n,)
+                self.member[p] = cls[n]
+                self.path_of[cls[n]] = list(p)
+                if kids:
+                    group(kids, p)
+        group(forest, ())
+
+    def states_arg(self, forest, prefix=()):
+        out = []
+        for n, kids in forest:
+            p = prefix + (n,)
+            d = {'name': self.member[p]}
+            if kids:
+                d['children'] = self.states_arg(kids, p)
+            out.append(d)
+        return out
+
+
 _MISSING = object()
 
 
@@ -135,6 +181,7 @@ def impl(case):
     from transitions.extensions.nesting import HierarchicalMachine, NestedState
     cfg = case['cfg']
     sep = cfg['sep']
+    en = EnumTree(case['forest']) if cfg.get('enum') else None
 
     class NS(NestedState):
         separator = sep
@@ -142,10 +189,32 @@ def impl(case):
     class HM(HierarchicalMachine):
         state_cls = NS
 
+    cnt = [0]
+
+    def ref(path_or_name):
+        """a state reference for the API: in Enum mode alternately the member and the string path"""
+        p = path_or_name.split(sep) if isinstance(path_or_name, str) else list(path_or_name)
+        if en is None:
+            return sep.join(p)
+        cnt[0] += 1
+        return en.member[tuple(p)] if cnt[0] % 3 else sep.join(p)
+
+    def member(p):
+        return sep.join(p) if en is None else en.member[tuple(p)]
+
+    def names_of(v):
+        """the model's state as sorted list of path names"""
+        if isinstance(v, (list, tuple)):
+            return sorted(x for y in v for x in names_of(y))
+        if isinstance(v, enum.Enum):
+            return [sep.join(en.path_of[v])] if en is not None and v in en.path_of else ['?' + v.name]
+        return [v]
+
     paths = paths_of(case['forest'])
-    machine = HM(model=None, states=to_states_arg(case['forest']), initial=sep.join(leaves_of(case['forest'])[0]),
-                 transitions=[list(t) for t in case['transitions']], auto_transitions=cfg['auto'],
-                 model_override=cfg['over'])
+    machine = HM(model=None, states=en.states_arg(case['forest']) if en else to_states_arg(case['forest']),
+                 initial=sep.join(leaves_of(case['forest'])[0]),
+                 transitions=[[t, ref(src), ref(dst)] for t, src, dst in case['transitions']],
+                 auto_transitions=cfg['auto'], model_override=cfg['over'])
     objs = c11.Objects()
     models = []
 
@@ -168,6 +237,7 @@ def impl(case):
         out = []
         for mid, model in models:
             rows = []
+            single = len(names_of(model.state)) == 1
             for p in paths:
                 ik, f = resolve(model, mid, 'is_', p)
                 calls = []
@@ -175,14 +245,29 @@ def impl(case):
                     calls = [bool(f()), bool(f(allow_substates=True))]
                     if f() not in (True, False):
                         calls = [7, 7]
-                tk, _ = resolve(model, mid, 'to_', p)
-                rows.append([sx_str(sep.join(p)), ik, calls, tk])
+                tk, g = resolve(model, mid, 'to_', p)
+                tocall = []
+                if tk == [2] and single:
+                    saved = model.state
+                    r = c11.res_of(g)
+                    after = names_of(model.state)
+                    machine.set_state(saved, model)
+                    tocall = [r == [0, True], sx_str(after[0])] if (r[0] == 0 and len(after) == 1) else [7, r]
+                rows.append([sx_str(sep.join(p)), ik, calls, tk, tocall])
             out.append([mid, rows])
         return out
 
     def extra():
-        """get_triggers / get_transitions of the hierarchical machine against each other"""
+        """get_triggers / get_transitions of the hierarchical machine against each other, against the
+        transitions the case declared (by name), and — Enum mode — asked by member against asked by name"""
         bad = []
+        want_rel = {}
+        for t, src, dst in case['transitions']:
+            want_rel.setdefault(t, []).append((src, dst))
+        for e in sorted(set(want_rel) | set(k for k in machine.events.keys() if not k.startswith('to_'))):
+            got = sorted((t.source, t.dest) for t in machine.get_transitions(e))
+            if got != sorted(want_rel.get(e, [])):
+                bad.append([sx_str('declared ' + e), [sx_str('%s>%s' % x) for x in got]])
         for p in paths:
             name = sep.join(p)
             got = set(machine.get_triggers(name))
@@ -199,6 +284,17 @@ def impl(case):
                 up = [t for q in [p[:i] for i in range(1, len(p))] for t in machine.get_transitions(e, source=sep.join(q))]
                 if sorted(map(id, deleg)) != sorted(map(id, direct + up)):
                     bad.append([sx_str(name), [sx_str(e)]])
+                if en is not None:
+                    mem = en.member[tuple(p)]
+                    if list(map(id, machine.get_transitions(e, source=mem))) != list(map(id, direct)):
+                        bad.append([sx_str('enum source ' + name), [sx_str(e)]])
+                    if list(map(id, machine.get_transitions(e, dest=mem))) != list(map(id, machine.get_transitions(e, dest=name))):
+                        bad.append([sx_str('enum dest ' + name), [sx_str(e)]])
+            if en is not None and len(p) == 1:
+                # KF-C11-4: get_triggers(<nested Enum member>) resolves the member by its bare name; only
+                # top-level members are required to agree with the lookup by name
+                if set(machine.get_triggers(en.member[tuple(p)])) != got:
+                    bad.append([sx_str('enum get_triggers ' + name), []])
         return bad
 
     steps = []
@@ -207,13 +303,13 @@ def impl(case):
         try:
             if op[0] == 'model':
                 obj = objs.get(op[1])
-                machine.add_model(obj, initial=sep.join(op[2]))
+                machine.add_model(obj, initial=ref(op[2]))
                 if obj in machine.models and all(i != op[1]['id'] for i, _ in models):
                     models.append((op[1]['id'], obj))
             else:
                 obj = dict(models).get(op[1])
                 if obj is not None:
-                    act = [sep.join(p) for p in op[2]]
+                    act = [ref(p) for p in op[2]]
                     machine.set_state(act if len(act) > 1 else act[0], obj)
         except Exception as e:   # noqa
             res = [1, c11.exn_code(e)]
@@ -271,12 +367,15 @@ def oracle(case, obs):
             active[op[1]] = op[2]
         for mid, rows in models:
             act = active[mid]
-            for name, ik, calls, tk in rows:
+            for name, ik, calls, tk, tocall in rows:
                 p = un_str(name).split(cfg['sep'])
                 flat = 'is_' + '_'.join(p)
                 o = own[mid].get(flat)
-                if cfg['sep'] == '_' and o is not None and o[0] == 'pre' and not cfg['over'] and ik != [0, o[1]]:
+                if cfg['sep'] == '_' and o is not None and o[0] in ('pre', 'own') and not cfg['over'] \
+                        and ik != [0 if o[0] == 'pre' else 4, o[1]]:
                     return 'model %d: own attribute %s overwritten' % (mid, flat)
+                if tocall and tocall != [True, name]:
+                    return 'model %d: %s() did not end in %s: %r' % (mid, 'to_' + un_str(name), un_str(name), tocall)
                 if ik != [2]:
                     continue
                 is_leaf = p in act
@@ -302,6 +401,14 @@ def stats(case, obs, dist):
     def bump(k, n=1):
         dist[k] = dist.get(k, 0) + n
     bump('hsm_sep_' + case['cfg']['sep'])
+    if case['cfg'].get('enum'):
+        bump('hsm_enum')
+        names = ['_'.join(p) for p in paths_of(case['forest'])]
+        if any(len(p) > 1 and p[-1] in [t[0] for t in case['forest']] for p in paths_of(case['forest'])):
+            bump('hsm_enum_nested_namesake_of_top_level')
+    for _, models in obs[2]:
+        for _, rows in models:
+            bump('hsm_to_calls', sum(1 for r in rows if len(r) > 4 and r[4]))
     bump('hsm_states', len(paths_of(case['forest'])))
     for op, st in zip(case['ops'], obs[2]):
         bump('hsm_op_' + op[0])
